@@ -296,6 +296,9 @@ def check_case(case, cfgs, timeout_ms=60000, want_witness=True):
             out["results"].append(res)
         out["queries"] = ctx.n_queries
         out["solver_s"] = round(ctx.solver_time, 2)
+        out["cross"] = ctx.cross
+        if ctx.cross["disagree"]:
+            out["error"] = "engine: solver disagreement: " + "; ".join(ctx.cross["disagree"][:2])
     except dl.RefUnsupported as e:
         out["error"] = "reference-unsupported: %s" % e
     except EngineError as e:
